@@ -27,6 +27,9 @@ use hashbrown::{
 };
 
 use super::Stages;
+// Under `--cfg brood_verif` the two `rayon::join` calls below go through the fork/join seam.
+#[cfg(brood_verif)]
+use crate::verif::shim as rayon;
 
 define_null!();
 
